@@ -115,6 +115,21 @@ def datum_exprs(tier):
     return out
 
 
+def ladder_exprs(tier):
+    """wide and deep data around the writer's recursion guard (a fixed depth budget): every leaf repeated N times followed by a
+    trailer, and every leaf nested N levels deep"""
+    out = []
+    widths = (130, 300) if tier != "thorough" else (130, 300, 2000)
+    depths = (20, 100) if tier != "thorough" else (20, 100, 120)
+    for leaf in LEAVES:
+        for n in widths:
+            out.append("(append (map (lambda (i) %s) (range 0 %d)) (list 'end 1 \"s\" (list 2)))" % (leaf, n))
+            out.append("(list->vector (append (map (lambda (i) (list %s)) (range 0 %d)) (list 'end (list 2))))" % (leaf, n))
+        for n in depths:
+            out.append("(let loop ((i 0) (acc %s)) (if (= i %d) (list acc 'end) (loop (+ i 1) (list acc))))" % (leaf, n))
+    return out
+
+
 def work_datums(lst):
     """lst of (id, expr)"""
     cases = [{"id": i, "steps": PRELUDE + ["(vf-rt %s)" % e]} for i, e in lst]
@@ -183,6 +198,54 @@ def work_read_hist(lst):
         o2, o1 = obs(a["steps"][1]), obs(b["steps"][0])
         if o1 != o2:
             fails.append((s1, s2, "differs", o1, o2))
+    return len(lst), fails
+
+
+# ---------------------------------------------------------------- (d) literal reference (escapes)
+BAR_PIECES = [("a", "a"), ("λ", "λ"), (" ", " "), ("\\|", "|"), ("\\\\", "\\"), ("\\x41;", "A"), ("\\n", "\n"), ("(", "("),
+              ("#", "#"), ("😀", "😀"), (";", ";"), ("\\t", "\t")]
+STR_PIECES = [("a", "a"), ("λ", "λ"), ("\\\\", "\\"), ("\\\"", "\""), ("\\n", "\n"), ("\\t", "\t"), ("\\x41;", "A"),
+              ("\\x3bb;", "λ"), (" ", " "), ("😀", "😀"), ("|", "|"), (";", ";"), ("\\a", "\x07"), ("\\0", "\x00")]
+
+
+def literal_cases(tier):
+    """(source expression, expected encoding): what a literal denotes, from the R7RS escape rules"""
+    L = 4 if tier == "thorough" else 3
+    out = []
+    for n in range(0, L + 1):
+        for combo in itertools.product(BAR_PIECES, repeat=n):
+            src = "".join(p for p, d in combo)
+            dec = "".join(d for p, d in combo)
+            out.append(("(symbol->string '|%s|)" % src, "(str %s)" % json.dumps(dec, ensure_ascii=False)))
+        for combo in itertools.product(STR_PIECES, repeat=n):
+            src = "".join(p for p, d in combo)
+            dec = "".join(d for p, d in combo)
+            out.append(("\"%s\"" % src, "(str %s)" % json.dumps(dec, ensure_ascii=False)))
+    return out
+
+
+def work_literals(lst):
+    """lst of (expr, want); 150 literals per step, failures re-run one per step for attribution"""
+    fails = []
+    groups = common.chunks(lst, 150)
+    cases = [{"id": i, "steps": ["(list %s)" % " ".join(e for e, w in g)]} for i, g in enumerate(groups)]
+    res = common.run_cases(cases, batch=8, timeout_ms=60000)
+    redo = []
+    for i, g in enumerate(groups):
+        r = res[i]
+        want = "(lst " + " ".join(w for e, w in g) + ")" if g else "(lst)"
+        if r["exit"] == "normal" and r["steps"] and r["steps"][0]["s"] == "ok" and r["steps"][0]["v"][-1] == want:
+            continue
+        redo += g
+    if redo:
+        cases = [{"id": i, "steps": [e]} for i, (e, w) in enumerate(redo)]
+        res = common.run_cases(cases, batch=20, timeout_ms=20000)
+        for i, (e, w) in enumerate(redo):
+            r = res[i]
+            got = "crash:%s" % r["exit"] if (r["exit"] != "normal" or not r["steps"]) else (
+                r["steps"][0]["v"][-1] if r["steps"][0]["s"] == "ok" else r["steps"][0]["s"])
+            if got != w:
+                fails.append((e, w, got))
     return len(lst), fails
 
 
@@ -306,6 +369,10 @@ def main(argv=None):
             n, fails, _ = work_datums([(0, rp["expr"])])
             print("now:", fails)
             return 1 if fails else 0
+        if rp["kind"] == "literal":
+            n, fails = work_literals([(rp["expr"], rp["want"])])
+            print("now:", fails)
+            return 1 if fails else 0
         if rp["kind"] == "readhist":
             n, fails = work_read_hist([(0, (rp["s1"], rp["s2"]))])
             print("now:", fails)
@@ -368,7 +435,7 @@ def main(argv=None):
         rep.violation(sig,
                       {"first": s1, "then": s2, "alone": o1, "after": o2, "why": why}, {"kind": "readhist", "s1": s1, "s2": s2})
     # (b) datums
-    dex = datum_exprs(a.tier)
+    dex = datum_exprs(a.tier) + ladder_exprs(a.tier)
     dres = common.pmap(work_datums, common.chunks(list(enumerate(dex)), 400))
     n_dat = sum(r[0] for r in dres)
     doutcomes = set()
@@ -386,6 +453,17 @@ def main(argv=None):
                 # one mechanism, many inputs: the writer emitted exactly the bare name
                 sig = "write emits a symbol's name bare (no |..| quoting), so names that are not plain identifiers do not read back"
         rep.violation(sig, {"minimal": m, "found_as": e, "why": why, "got": v}, {"kind": "datum", "expr": m})
+    # (d) literals against the escape rules
+    lits = literal_cases(a.tier)
+    lres = common.pmap(work_literals, common.chunks(lits, 3000))
+    n_lit = sum(r[0] for r in lres)
+    lf = sorted([f for r in lres for f in r[1]], key=lambda f: (len(f[0]), f[0]))
+    lkept = []
+    for e, w, got in lf:
+        if len(lkept) >= 12:
+            break
+        lkept.append(e)
+        rep.violation("literal %s denotes %s, read as %s" % (e, w, got), {"expr": e, "want": w, "got": got}, {"kind": "literal", "expr": e, "want": w})
     # (c) programs
     progs = ZOO + small_programs(a.tier)
     pres = common.pmap(work_roundtrip, common.chunks(progs, 500))
@@ -393,7 +471,7 @@ def main(argv=None):
     n_parsed = sum(r["parsed"] for r in pres)
     for m, cls, f in shrink_all([f for r in pres for f in r["fails"]], _shrink_prog, lambda f: f["s"]):
         rep.violation("print/parse %s => %s" % (m, cls), dict(f, minimal=m), {"kind": "roundtrip", "s": m})
-    cov = {"evaluations": n_parse + n_read + n_dat + n_prog + n_hist, "read_history_pairs": n_hist,
+    cov = {"evaluations": n_parse + n_read + n_dat + n_prog + n_hist + n_lit, "literals": n_lit, "read_history_pairs": n_hist,
            "distinct_nontrivial": n_ok + n_dat + n_parsed,
            "rule": "(a) every string of length <= %d over a %d-character alphabet and every token sequence of length <= %d (joined with and "
                    "without spaces) from a %d-token menu through Parser::parse (no panic, every AST/error span inside the text on char "
